@@ -344,8 +344,10 @@ struct Exec {
             break;
         }
         case K_RANDOM: {
-            uint32_t v = randombytes_random();
-            out.resize(4); memcpy(out.data(), &v, 4);
+            // arg + 1 consecutive draws (long runs walk through the refill cycles of a buffering source)
+            size_t cnt = (size_t) op.arg + 1;
+            out.resize(4 * cnt);
+            for (size_t q = 0; q < cnt; q++) { uint32_t v = randombytes_random(); memcpy(out.data() + 4 * q, &v, 4); }
             break;
         }
         case K_BUF:
@@ -423,7 +425,8 @@ struct Exec {
             OpOut o;
             o.start = g_src.pos; o.req_first = g_src.log.size();
             uint64_t amb0 = AMB.calls;
-            if (sigsetjmp(g_term_env, 1) == 0) { g_term_armed = 1; run_op(op, o, prefill); g_term_armed = 0; }
+            // (the stack the library's frames will occupy is filled like the output buffers: differently in the replay execution)
+            if (sigsetjmp(g_term_env, 1) == 0) { g_term_armed = 1; dirty_stack(0x0101010101010101ull * prefill); run_op(op, o, prefill); g_term_armed = 0; }
             else { g_term_armed = 0; simos_reset_thread(); o.terminated = 1; o.out.clear(); o.invalid.clear(); }
             o.end = g_src.pos; o.req_last = g_src.log.size();
             o.ambient_calls = AMB.calls - amb0;
@@ -542,7 +545,7 @@ struct Exec {
             // 32-bit outputs: two of them being exactly 0 in one execution has probability 2^-64 for a working generator
             size_t zero_words = 0;
             for (size_t i = 0; i < plan.ops.size(); i++)
-                if (plan.ops[i].kind == K_RANDOM && base.ops[i].out.size() == 4 && all_zero(base.ops[i].out.data(), 4)) zero_words++;
+                if (plan.ops[i].kind == K_RANDOM) for (size_t q = 0; q + 4 <= base.ops[i].out.size(); q += 4) if (all_zero(base.ops[i].out.data() + q, 4)) zero_words++;
             if (!res.violated && zero_words >= 2) res.fail("generator-output-degenerate", "random/internal", std::to_string(zero_words) + " calls of randombytes_random() in one execution returned exactly 0", 0);
             res.count("probe.internal_no_repeat_checked");
         }
@@ -772,7 +775,7 @@ struct C18 {
             case K_PWHASH_STR: op.arg = (uint32_t) r.below(4); plain = 16; break;
             case K_BUF: case K_LEGACY: op.arg = (uint32_t) r.pick<uint32_t>({0, 1, 4, 31, 32, 33, 64, 255, 256, 257, 300, 511, 512, 513, 600, 768, 1000, 1025, 4113, 0, 32, 64, 256, 16385}); plain = op.arg; break;
             case K_DETERMINISTIC: op.arg = (uint32_t) (r.chance(1, 3) ? r.pick<uint32_t>({0, 1, 63, 64, 65, 127, 128, 129, 255, 256, 257, 320, 511, 512, 513, 767, 768, 769, 1023, 1024, 1025, 1100}) : r.below(1101)); break;
-            case K_RANDOM: plain = 4; break;
+            case K_RANDOM: op.arg = r.chance(1, 5) ? (uint32_t) r.pick<uint32_t>({112, 119, 120, 127, 240, 300, 500}) : 0; plain = 4 * ((size_t) op.arg + 1); break;
             case K_POINT_RIS: plain = 64; break;
             case K_INIT_PUSH: plain = 24; break;
             case K_STIR: case K_CLOSE: break;
@@ -844,6 +847,7 @@ struct C18 {
         for (size_t i = 0; i < p.ops.size(); i++) {
             const Op &o = p.ops[i];
             if ((o.kind == K_BUF || o.kind == K_LEGACY || o.kind == K_DETERMINISTIC) && o.arg > 64) { Plan c = p; c.ops[i].arg = 64; if (o.kind != K_DETERMINISTIC) c.ops[i].seg.resize(64); out.push_back(c); }
+            if (o.kind == K_RANDOM && o.arg) { Plan c = p; c.ops[i].arg = 0; c.ops[i].seg.resize(4); out.push_back(c); }
             if (o.kind == K_UNIFORM && o.seg.size() > 4) { Plan c = p; c.ops[i].seg.erase(c.ops[i].seg.begin(), c.ops[i].seg.begin() + 4); out.push_back(c); }
             if ((o.kind == K_SCALAR_ED || o.kind == K_SCALAR_RIS) && o.seg.size() > 32) { Plan c = p; c.ops[i].seg.erase(c.ops[i].seg.begin(), c.ops[i].seg.begin() + 32); out.push_back(c); }
         }
